@@ -412,7 +412,7 @@ func rsEncode(e *Env) {
 
 // ---------------------------------------------------------------------------------------------- shard assignment
 
-func idxStr(v []int64) string {
+func rsIdxStr(v []int64) string {
 	if len(v) == 0 {
 		return "-"
 	}
@@ -492,7 +492,7 @@ func rsIndices(e *Env) {
 		e.Stat("idx." + cls)
 		e.In("idx %d %d %d %d", n, t, s1, s2)
 		if cls == "ok" {
-			e.Obs("ok %s", idxStr(out))
+			e.Obs("ok %s", rsIdxStr(out))
 		} else {
 			e.Obs("%s", cls)
 		}
@@ -509,7 +509,7 @@ func rsIndices(e *Env) {
 			}
 			e.In("idxc %d %d %s", n, t, c)
 			if cls == "ok" {
-				e.Obs("ok %s", idxStr(out))
+				e.Obs("ok %s", rsIdxStr(out))
 			} else {
 				e.Obs("%s", cls)
 			}
@@ -528,7 +528,7 @@ func rsIndices(e *Env) {
 			}
 			e.Oracle("assign_distinct_in_range", good, "n=%d t=%d seed=%d/%d -> %s %v", n, t, s1, s2, cls, out)
 			out2, cls2 := call()
-			e.Oracle("assign_deterministic", cls2 == cls && idxStr(out) == idxStr(out2), "n=%d t=%d seed=%d/%d", n, t, s1, s2)
+			e.Oracle("assign_deterministic", cls2 == cls && rsIdxStr(out) == rsIdxStr(out2), "n=%d t=%d seed=%d/%d", n, t, s1, s2)
 			if viaAddr {
 				// equal address ⇒ equal indices through the other entry point as well
 				var out3 []int64
@@ -536,7 +536,7 @@ func rsIndices(e *Env) {
 					out3 = datypes.GetRandomIndicesFromSeed(n, t, datypes.ValidatorSeed(append(sdk.ValAddress{}, addr...)), 1024)
 					return nil
 				})
-				e.Oracle("assign_function_of_address", cls3 == cls && idxStr(out3) == idxStr(out), "addrlen=%d n=%d t=%d", len(addr), n, t)
+				e.Oracle("assign_function_of_address", cls3 == cls && rsIdxStr(out3) == rsIdxStr(out), "addrlen=%d n=%d t=%d", len(addr), n, t)
 			}
 		}
 	}
@@ -984,7 +984,7 @@ func rsReplay(e *Env) {
 			var out []int64
 			cls := guard3(func() error { out = datypes.GetRandomIndicesFromSeed(n, th, s1, s2); return nil })
 			e.In("%s", strings.Join(t, " "))
-			e.Obs("%s", map[bool]string{true: "ok " + idxStr(out), false: cls}[cls == "ok"])
+			e.Obs("%s", map[bool]string{true: "ok " + rsIdxStr(out), false: cls}[cls == "ok"])
 			if n >= 0 && th >= 0 {
 				want := min(th, n)
 				seen := map[int64]bool{}
